@@ -2,7 +2,7 @@
 From Coq Require Import String.
 From Coq Require Import List NArith Bool Lia Permutation.
 From LV Require Import Base.Bytes Html.Macro Html.MacroParse Html.MacroSort Html.MacroParseProofs
-     Html.MacroAttrProofs.
+     Html.MacroAttrProofs Html.MacroFlat.
 Import ListNotations.
 Open Scope N_scope.
 
@@ -18,23 +18,23 @@ Definition text_of (n : node) : bytes :=
 Definition renders_text (n : node) : bool :=
   match n with NText s => negb (is_nil s) | NBlock _ => true | _ => false end.
 
-(** no <script> anywhere below an SVG / MathML element: the macro resolves [a], [script] and [title] by the
-    namespace of the parent (and only for an only child), and [svg::script] escapes its text where
-    [html::script] and the inert path do not — finding F-C18-j, compared by the harness only; the model
-    reads every [script] as the HTML raw-text element *)
-Definition k_script : bytes := Eval vm_compute in bs "script".
-Fixpoint no_script (n : node) : bool :=
+(** no element named script / style / noscript anywhere below an SVG / MathML element. There the
+    macro resolves the ambiguous names (a, script, style, title) by the namespace of the parent and
+    the inert path escapes all text (foreign content), and the HTML parser reads such an element as
+    an ordinary one — whereas Html/MacroParse.v knows raw-text elements by name only.  Such templates
+    are compared with the model byte for byte and judged by the oracle, outside the theorems. *)
+Fixpoint no_rawish (n : node) : bool :=
   match n with
-  | NElem tag _ ch => negb (beq tag k_script) && forallb no_script ch
-  | NFrag ch => forallb no_script ch
+  | NElem tag _ ch => negb (mem tag macro_raw) && forallb no_rawish ch
+  | NFrag ch => forallb no_rawish ch
   | _ => true
   end.
-Definition no_foreign_script (tag : bytes) (ch : list node) : bool :=
-  if mem tag macro_svg || mem tag macro_mathml then forallb no_script ch else true.
+Definition no_foreign_raw (tag : bytes) (ch : list node) : bool :=
+  if mem tag macro_svg || mem tag macro_mathml then forallb no_rawish ch else true.
 
 (** Names are readable, no components, no obsolete <param>; a block never evaluates to the empty
     string; void elements are empty; raw-text elements contain only text without "</"; title
-    contains only text; no <script> below SVG / MathML. *)
+    contains only text; no script / style / noscript below SVG / MathML. *)
 Fixpoint wf_node (n : node) : bool :=
   match n with
   | NText _ => true
@@ -42,7 +42,7 @@ Fixpoint wf_node (n : node) : bool :=
   | NFrag ch => forallb wf_node ch
   | NComment => true
   | NElem tag attrs ch =>
-      name_okb tag && no_foreign_script tag ch && negb (is_component tag) && negb (beq tag k_param)
+      name_okb tag && no_foreign_raw tag ch && negb (is_component tag) && negb (beq tag k_param)
       && forallb wf_attr attrs && forallb wf_node ch
       && (if mem tag html_void then is_nil ch else true)
       && (if mem tag parser_raw then forallb is_textish ch && no_lt_slash (flat_map text_of ch) else true)
@@ -192,8 +192,8 @@ Proof. intros. unfold open_tag. now rewrite H. Qed.
 (** ---- the inert path ---- *)
 Lemma inert_raw_children : forall ch,
     forallb is_textish ch = true -> forallb all_static ch = true ->
-    flat_map (inert_node false) ch = flat_map text_of ch
-    /\ flat_map (inert_node true) ch = enc_text (flat_map text_of ch).
+    flat_map (inert_node0 false) ch = flat_map text_of ch
+    /\ flat_map (inert_node0 true) ch = enc_text (flat_map text_of ch).
 Proof.
   induction ch as [|x ch IH]; intros Ht Hs; [now split|].
   cbn [forallb] in Ht, Hs. apply andb_true_iff in Ht as [Hx Ht]. apply andb_true_iff in Hs as [Hsx Hs].
@@ -203,11 +203,11 @@ Qed.
 
 Definition inert_ok (n : node) : Prop :=
   wf_node n = true -> nta n = true -> all_static n = true ->
-  forall k cur, feed (St MData k cur) (inert_node true n) = St MData k (dn n cur).
+  forall k cur, feed (St MData k cur) (inert_node0 true n) = St MData k (dn n cur).
 
 Lemma inert_children : forall ch, Forall inert_ok ch ->
     forallb wf_node ch = true -> forallb nta ch = true -> forallb all_static ch = true ->
-    forall k cur, feed (St MData k cur) (flat_map (inert_node true) ch) = St MData k (dn_list ch cur).
+    forall k cur, feed (St MData k cur) (flat_map (inert_node0 true) ch) = St MData k (dn_list ch cur).
 Proof.
   induction ch as [|x ch IH]; intros HF Hw Hn Hs k cur; [reflexivity|].
   inversion HF as [|? ? Hx HF']; subst.
@@ -219,14 +219,14 @@ Qed.
 Lemma inert_node_ok : forall n, inert_ok n.
 Proof.
   induction n as [s|s|tag attrs ch IH|ch IH|] using node_ind'; unfold inert_ok; intros Hw Hn Hs k cur.
-  - cbn [inert_node dn]. apply feed_enc_text.
+  - cbn [inert_node0 dn]. apply feed_enc_text.
   - discriminate.
   - cbn [wf_node] in Hw. do 8 (apply andb_true_iff in Hw as [Hw ?]).
     rename H into Hrc, H0 into Hraw, H1 into Hvoid, H2 into Hwch, H3 into Hwat, H4 into Hpar, H5 into Hcomp.
     apply negb_true_iff in Hpar.
     cbn [all_static] in Hs. apply andb_true_iff in Hs as [Hs Hsch]. apply andb_true_iff in Hs as [_ Hsat].
     cbn [nta] in Hn. apply andb_true_iff in Hn as [Hnt Hnch].
-    cbn [inert_node dn]. rewrite glue_start, feed_app.
+    cbn [inert_node0 dn]. rewrite glue_start, feed_app.
     rewrite feed_start_tag by (try assumption; now apply inert_attr_names).
     rewrite inert_attrs_pairs by assumption. fold (denote_attrs attrs).
     rewrite (void_agree tag Hpar).
@@ -267,12 +267,12 @@ Qed.
 (** children of a raw-text element: verbatim, no markers *)
 Lemma thread_raw_texts : forall io ch pos,
     forallb is_textish ch = true ->
-    fst (thread (fun pos x => r_node io false false pos x) pos ch) = flat_map text_of ch.
+    fst (thread (fun pos x => r_node0 io false false pos x) pos ch) = flat_map text_of ch.
 Proof.
   induction ch as [|x ch IH]; intros pos Ht; [reflexivity|].
   cbn [forallb] in Ht. apply andb_true_iff in Ht as [Hx Ht]. rewrite thread_cons. cbn [fst flat_map].
   rewrite IH by assumption. f_equal.
-  destruct x as [s|s| | |]; try discriminate; cbn [r_node text_of].
+  destruct x as [s|s| | |]; try discriminate; cbn [r_node0 text_of].
   - destruct s; [reflexivity|]. cbn [is_nil r_text fst]. now destruct pos.
   - cbn [r_text fst]. now destruct pos.
 Qed.
@@ -280,20 +280,20 @@ Qed.
 (** children of <title> outside the known class: at most one text, so no marker *)
 Lemma thread_rc_none : forall io ch pos,
     forallb is_textish ch = true -> filter renders_text ch = [] ->
-    thread (fun pos x => r_node io false true pos x) pos ch = ([], pos) /\ flat_map text_of ch = [].
+    thread (fun pos x => r_node0 io false true pos x) pos ch = ([], pos) /\ flat_map text_of ch = [].
 Proof.
   induction ch as [|x ch IH]; intros pos Ht Hf; [now split|].
   cbn [forallb] in Ht. apply andb_true_iff in Ht as [Hx Ht]. cbn [filter] in Hf.
   destruct (renders_text x) eqn:Er; [discriminate|].
   destruct x as [s|s| | |]; try discriminate. destruct s; [|discriminate].
-  rewrite thread_cons. cbn [r_node is_nil fst snd flat_map text_of app].
+  rewrite thread_cons. cbn [r_node0 is_nil fst snd flat_map text_of app].
   destruct (IH pos Ht Hf) as [-> ->]. now split.
 Qed.
 
 Lemma thread_rc_texts : forall io ch pos,
     forallb is_textish ch = true -> forallb wf_node ch = true ->
     (N.of_nat (List.length (filter renders_text ch)) <=? 1) = true -> pos <> PAfterText ->
-    fst (thread (fun pos x => r_node io false true pos x) pos ch) = enc_text (flat_map text_of ch).
+    fst (thread (fun pos x => r_node0 io false true pos x) pos ch) = enc_text (flat_map text_of ch).
 Proof.
   induction ch as [|x ch IH]; intros pos Ht Hw Hc Hp; [reflexivity|].
   cbn [forallb] in Ht, Hw. apply andb_true_iff in Ht as [Hx Ht]. apply andb_true_iff in Hw as [Hwx Hw].
@@ -302,26 +302,26 @@ Proof.
   - assert (Hnone : filter renders_text ch = []).
     { cbn [List.length] in Hc. destruct (filter renders_text ch); [reflexivity|].
       cbn [List.length] in Hc. apply N.leb_le in Hc. lia. }
-    destruct (thread_rc_none io ch (snd (r_node io false true pos x)) Ht Hnone) as [-> ->].
+    destruct (thread_rc_none io ch (snd (r_node0 io false true pos x)) Ht Hnone) as [-> ->].
     cbn [fst]. rewrite !app_nil_r.
-    destruct x as [s|s| | |]; try discriminate; cbn [r_node text_of].
+    destruct x as [s|s| | |]; try discriminate; cbn [r_node0 text_of].
     + cbn [renders_text] in Er. apply negb_true_iff in Er. rewrite Er. unfold r_text. cbn [fst]. rewrite Er.
       destruct pos; try reflexivity. congruence.
     + cbn [wf_node] in Hwx. apply negb_true_iff in Hwx. unfold r_text. cbn [fst]. rewrite Hwx.
       destruct pos; try reflexivity. congruence.
   - destruct x as [s|s| | |]; try discriminate. destruct s; [|discriminate].
-    cbn [r_node is_nil fst snd text_of app]. cbn [enc_text flat_map app]. now apply IH.
+    cbn [r_node0 is_nil fst snd text_of app]. cbn [enc_text flat_map app]. now apply IH.
 Qed.
 
 Definition render_ok (n : node) : Prop :=
   wf_node n = true -> nta n = true ->
   forall io top pos k cur,
-    feed (St MData k cur) (fst (r_node io top true pos n)) = St MData k (dn n cur).
+    feed (St MData k cur) (fst (r_node0 io top true pos n)) = St MData k (dn n cur).
 
 Lemma render_children : forall ch, Forall render_ok ch ->
     forallb wf_node ch = true -> forallb nta ch = true ->
     forall io top pos k cur,
-      feed (St MData k cur) (fst (thread (fun pos x => r_node io top true pos x) pos ch))
+      feed (St MData k cur) (fst (thread (fun pos x => r_node0 io top true pos x) pos ch))
       = St MData k (dn_list ch cur).
 Proof.
   induction ch as [|x ch IH]; intros HF Hw Hn io top pos k cur; [reflexivity|].
@@ -334,9 +334,9 @@ Lemma render_node_ok : forall n, render_ok n.
 Proof.
   induction n as [s|s|tag attrs ch IH|ch IH|] using node_ind'; unfold render_ok;
     intros Hw Hn io top pos k cur.
-  - cbn [r_node dn]. destruct s as [|c s]; [reflexivity|]. now apply r_text_ok.
-  - cbn [r_node dn]. cbn [wf_node] in Hw. apply negb_true_iff in Hw. now apply r_text_ok.
-  - cbn [r_node].
+  - cbn [r_node0 dn]. destruct s as [|c s]; [reflexivity|]. now apply r_text_ok.
+  - cbn [r_node0 dn]. cbn [wf_node] in Hw. apply negb_true_iff in Hw. now apply r_text_ok.
+  - cbn [r_node0].
     destruct (negb top && io && is_inert_element (NElem tag attrs ch)) eqn:Ei.
     + cbn [fst]. apply andb_true_iff in Ei as [_ Ei]. unfold is_inert_element in Ei.
       apply andb_true_iff in Ei as [_ Es]. now apply inert_node_ok.
@@ -374,7 +374,7 @@ Proof.
               rewrite feed_app, (render_children ch IH) by assumption.
               rewrite feed_end_tag by assumption.
               now rewrite builder_attrs_denote by assumption.
-  - cbn [r_node dn]. cbn [wf_node] in Hw. cbn [nta] in Hn. fold (dn_list ch cur).
+  - cbn [r_node0 dn]. cbn [wf_node] in Hw. cbn [nta] in Hn. fold (dn_list ch cur).
     now apply render_children.
   - reflexivity.
 Qed.
@@ -401,12 +401,136 @@ Proof.
   rewrite dn_list_cons, no_tokens_dn by assumption. now apply IH.
 Qed.
 
+(** ---- on well-formed templates the namespace-aware renderers are the flat ones ---- *)
+Lemma wf_elem_inv : forall tag attrs ch, wf_node (NElem tag attrs ch) = true ->
+    forallb wf_node ch = true /\ no_foreign_raw tag ch = true.
+Proof.
+  intros tag attrs ch H. cbn [wf_node] in H.
+  do 8 (apply andb_true_iff in H as [H ?]). now split.
+Qed.
+
+Lemma svg_math_foreign : forall tag, (beq tag k_svg || beq tag k_math) = true ->
+    (mem tag macro_svg || mem tag macro_mathml) = true /\ mem tag macro_raw = false.
+Proof.
+  intros tag H. apply orb_true_iff in H as [H|H]; apply beq_eq in H; subst; split; reflexivity.
+Qed.
+
+Lemma inert_node_flat : forall n foreign e, wf_node n = true ->
+    (foreign = true -> no_rawish n = true) -> inert_node foreign e n = inert_node0 e n.
+Proof.
+  induction n as [s|s|tag attrs ch IH|ch IH|] using node_ind'; intros foreign e Hw Hf; try reflexivity.
+  destruct (wf_elem_inv _ _ _ Hw) as [Hwch Hnf].
+  cbn [inert_node inert_node0].
+  set (fe := foreign || beq tag k_svg || beq tag k_math).
+  assert (Hraw : fe = true -> mem tag macro_raw = false /\ forallb no_rawish ch = true).
+  { unfold fe. intros H. rewrite <- orb_assoc in H. apply orb_true_iff in H as [H|H].
+    - specialize (Hf H). cbn [no_rawish] in Hf. apply andb_true_iff in Hf as [H1 H2].
+      apply negb_true_iff in H1. now split.
+    - destruct (svg_math_foreign tag H) as (Hs & Hr). split; [exact Hr|].
+      unfold no_foreign_raw in Hnf. now rewrite Hs in Hnf. }
+  assert (Hesc : fe || negb (mem tag macro_raw) = negb (mem tag macro_raw)).
+  { destruct fe eqn:E; [|reflexivity]. destruct (Hraw eq_refl) as [-> _]. reflexivity. }
+  rewrite Hesc. do 4 f_equal. destruct (mem tag macro_void); [reflexivity|]. f_equal.
+  assert (Hch : fe && negb (mem tag svg_integration) = true -> forallb no_rawish ch = true).
+  { intros H. apply andb_true_iff in H as [H _]. now apply Hraw. }
+  clear Hesc Hraw Hnf Hf Hw. revert Hch. generalize (negb (mem tag macro_raw)) as e'.
+  generalize (fe && negb (mem tag svg_integration)) as f'. intros f' e' Hch.
+  induction IH as [|x ch Hx _ IHch]; [reflexivity|].
+  cbn [forallb] in Hwch. apply andb_true_iff in Hwch as [Hwx Hwch].
+  cbn [flat_map]. rewrite Hx.
+  - rewrite IHch; [reflexivity | assumption|].
+    intros H. specialize (Hch H). cbn [forallb] in Hch. now apply andb_true_iff in Hch as [_ Hch].
+  - assumption.
+  - intros H. specialize (Hch H). cbn [forallb] in Hch. now apply andb_true_iff in Hch as [Hch _].
+Qed.
+
+(** an ambiguous name that is not script / style escapes its children and is not void under the
+    HTML constructor too *)
+Lemma svg_ctor_flat : forall pt tag, svg_ctor pt tag = true -> mem tag macro_raw = false ->
+    b_escape tag = true /\ b_void tag = false.
+Proof.
+  intros pt tag H Hr. unfold svg_ctor in H. apply andb_true_iff in H as [H _].
+  apply andb_true_iff in H as [_ H]. apply mem_In in H.
+  destruct H as [<-|[<-|[<-|[<-|[]]]]]; try discriminate; split; reflexivity.
+Qed.
+
+Lemma b_p_flat : forall pt tag, (is_foreign pt = true -> mem tag macro_raw = false) ->
+    b_escape_p pt tag = b_escape tag /\ b_void_p pt tag = b_void tag /\ b_whole_p pt tag = b_whole tag.
+Proof.
+  intros pt tag H. unfold b_whole_p, b_whole, b_escape_p, b_void_p.
+  destruct (svg_ctor pt tag) eqn:E; [|repeat split; reflexivity].
+  assert (Hpt : is_foreign pt = true).
+  { unfold svg_ctor in E. apply andb_true_iff in E as [_ E]. now destruct pt. }
+  destruct (svg_ctor_flat pt tag E (H Hpt)) as [-> ->]. repeat split; reflexivity.
+Qed.
+
+(** children below a namespace that makes a difference hold no raw-text names *)
+Lemma child_type_ok : forall pt tag ch,
+    (is_foreign pt = true -> forallb no_rawish ch = true) -> no_foreign_raw tag ch = true ->
+    is_foreign (child_type pt tag) = true -> forallb no_rawish ch = true.
+Proof.
+  intros pt tag ch Hpt Hnf. unfold child_type, own_type, no_foreign_raw in *.
+  destruct (is_custom tag); [destruct pt; cbn; try discriminate; auto|].
+  destruct (mem tag macro_svg); [cbn [orb] in Hnf; intros _; exact Hnf|].
+  destruct (mem tag macro_mathml); [cbn [orb] in Hnf; intros _; exact Hnf|].
+  destruct (mem tag macro_ambiguous); [|discriminate].
+  destruct pt; cbn; try discriminate; auto.
+Qed.
+
+Lemma r_node_flat : forall n io top e pt pos, wf_node n = true ->
+    (is_foreign pt = true -> no_rawish n = true) ->
+    r_node io top e pt pos n = r_node0 io top e pos n.
+Proof.
+  induction n as [s|s|tag attrs ch IH|ch IH|] using node_ind'; intros io top e pt pos Hw Hf; try reflexivity.
+  - destruct (wf_elem_inv _ _ _ Hw) as [Hwch Hnf].
+    cbn [r_node r_node0]. rewrite (inert_node_flat _ (is_foreign pt) true Hw Hf).
+    destruct (negb top && io && is_inert_element (NElem tag attrs ch)); [reflexivity|].
+    assert (Htag : is_foreign pt = true -> mem tag macro_raw = false).
+    { intros H. specialize (Hf H). cbn [no_rawish] in Hf. apply andb_true_iff in Hf as [H1 _].
+      now apply negb_true_iff in H1. }
+    destruct (b_p_flat pt tag Htag) as (-> & -> & ->).
+    assert (Hch : is_foreign (child_type pt tag) = true -> forallb no_rawish ch = true).
+    { apply child_type_ok; [|exact Hnf]. intros H. specialize (Hf H). cbn [no_rawish] in Hf.
+      now apply andb_true_iff in Hf as [_ Hf]. }
+    do 2 f_equal. do 3 f_equal. destruct (b_void tag); [reflexivity|]. f_equal.
+    destruct (mem tag macro_void); [reflexivity|].
+    assert (Hth : forall p, thread (fun pos x => r_node io false (b_escape tag) (child_type pt tag) pos x) p ch
+                            = thread (fun pos x => r_node0 io false (b_escape tag) pos x) p ch).
+    { clear - IH Hwch Hch. revert Hch. generalize (child_type pt tag) as ct. intros ct Hch.
+      induction IH as [|x ch Hx _ IHch]; intros p; [reflexivity|].
+      cbn [forallb] in Hwch. apply andb_true_iff in Hwch as [Hwx Hwch].
+      cbn [thread]. rewrite Hx.
+      - destruct (r_node0 io false (b_escape tag) p x) as [h p1]. rewrite IHch; [reflexivity | assumption|].
+        intros H. specialize (Hch H). cbn [forallb] in Hch. now apply andb_true_iff in Hch as [_ Hch].
+      - assumption.
+      - intros H. specialize (Hch H). cbn [forallb] in Hch. now apply andb_true_iff in Hch as [Hch _]. }
+    now rewrite Hth.
+  - cbn [r_node r_node0]. cbn [wf_node] in Hw.
+    assert (Hch : is_foreign pt = true -> forallb no_rawish ch = true) by exact Hf.
+    clear Hf. revert pos. induction IH as [|x ch Hx _ IHch]; intros pos; [reflexivity|].
+    cbn [forallb] in Hw. apply andb_true_iff in Hw as [Hwx Hw].
+    cbn [thread]. rewrite Hx.
+    + destruct (r_node0 io true e pos x) as [h p1]. rewrite IHch; [reflexivity | assumption|].
+      intros H. specialize (Hch H). cbn [forallb] in Hch. now apply andb_true_iff in Hch as [_ Hch].
+    + assumption.
+    + intros H. specialize (Hch H). cbn [forallb] in Hch. now apply andb_true_iff in Hch as [Hch _].
+Qed.
+
+Lemma r_list_flat : forall l io top e pos, forallb wf_node l = true ->
+    r_list io top e PUnknown pos l = r_list0 io top e pos l.
+Proof.
+  intros l io top e. unfold r_list, r_list0. induction l as [|x l IH]; intros pos Hw; [reflexivity|].
+  cbn [forallb] in Hw. apply andb_true_iff in Hw as [Hwx Hw]. cbn [thread].
+  rewrite r_node_flat by (try assumption; discriminate).
+  destruct (r_node0 io top e pos x) as [h p1]. now rewrite IH.
+Qed.
+
 Theorem view_denotes : forall io t, wf t -> ~ KnownClass t ->
     parse (view_html io t) = denote t.
 Proof.
   intros io t Hw Hk. unfold KnownClass in Hk. apply not_false_is_true in Hk.
   unfold view_html. destruct (existsb has_tokens t) eqn:Et.
-  - unfold parse, r_list, denote.
+  - rewrite r_list_flat by assumption. unfold parse, r_list0, denote.
     rewrite (render_children t) by (try assumption; apply Forall_forall; intros; apply render_node_ok).
     reflexivity.
   - unfold denote. now rewrite no_tokens_dn_list.
@@ -422,7 +546,8 @@ Proof.
   unfold wf in Hw. cbn [forallb] in Hw, Hk. rewrite andb_true_r in Hw, Hk.
   unfold is_inert_element in Hi. destruct n as [| |tag attrs ch| |]; try discriminate.
   apply andb_true_iff in Hi as [_ Hs].
-  unfold parse, inert_html. rewrite (inert_node_ok _ Hw Hk Hs). reflexivity.
+  unfold parse, inert_html. rewrite inert_node_flat by (try assumption; discriminate).
+  rewrite (inert_node_ok _ Hw Hk Hs). reflexivity.
 Qed.
 
 Theorem inert_eq_builder : forall n, wf [n] -> ~ KnownClass [n] -> is_inert_element n = true ->
@@ -652,7 +777,7 @@ Qed.
     is a raw-text element such as <noscript>.  (tachys: [HtmlElement::to_html_with_buf] ignores
     [_escape] and passes [E::ESCAPE_CHILDREN] on; macro: [inert_element_to_tokens] recomputes
     [escape] from the element's own name.) *)
-Lemma element_ignores_parent_escape : forall io top e1 e2 pos1 pos2 tag attrs ch,
-    r_node io top e1 pos1 (NElem tag attrs ch) = r_node io top e2 pos2 (NElem tag attrs ch)
-    /\ inert_node e1 (NElem tag attrs ch) = inert_node e2 (NElem tag attrs ch).
+Lemma element_ignores_parent_escape : forall io top pt f e1 e2 pos1 pos2 tag attrs ch,
+    r_node io top e1 pt pos1 (NElem tag attrs ch) = r_node io top e2 pt pos2 (NElem tag attrs ch)
+    /\ inert_node f e1 (NElem tag attrs ch) = inert_node f e2 (NElem tag attrs ch).
 Proof. intros. split; reflexivity. Qed.
